@@ -55,6 +55,11 @@ def f_t3(x, y, z, *, t, c=0.75):
     return c + 0.5 * t + 0.2 * x + 0.1 * y * z
 
 
+def f_t3b(x, y, z, *, t, c=0.75):
+    # a second time-dependent 3-D function with the same keyword arguments (name and value) as f_t3
+    return 0.25 + c + 0.25 * t * x + 0.3 * y + 0.05 * z
+
+
 def f_t2(x, y, *, t, d=2.0):
     return d - 0.5 * t + 0.1 * x * y
 
@@ -70,8 +75,8 @@ def closure_leaf(c):
 
 KC = {"K2a": 1.1, "K2b": 2.3}
 NUM = {"I": 2, "F": 1.5}
-DIM = {"P2": 2, "T2": 2, "P3": 3, "T3": 3, "K2a": 2, "K2b": 2}
-TDEP = {"T3", "T2"}
+DIM = {"P2": 2, "T2": 2, "P3": 3, "T3": 3, "T3b": 3, "K2a": 2, "K2b": 2}
+TDEP = {"T3", "T2", "T3b"}
 
 
 def make_leaf(kind, variant=0):
@@ -90,6 +95,8 @@ def make_leaf(kind, variant=0):
         return tdgl.Parameter(f_p3, **kw)
     if kind == "T3":
         return tdgl.Parameter(f_t3, time_dependent=True, **kw)
+    if kind == "T3b":
+        return tdgl.Parameter(f_t3b, time_dependent=True, **({"c": 0.8} if variant else {}))
     return tdgl.Parameter(f_t2, time_dependent=True, **kw)
 
 
@@ -156,6 +163,12 @@ def ref_eval(tree, x, y, z, t):
             if z is None:
                 raise TypeError("3-D leaf called without z")
             v = f_p3(xa, ya, np.atleast_1d(z))
+        elif tree == "T3b":
+            if z is None:
+                raise TypeError("3-D leaf called without z")
+            if t is None:
+                raise TypeError("t required")
+            v = f_t3b(xa, ya, np.atleast_1d(z), t=t)
         else:
             if z is None:
                 raise TypeError("3-D leaf called without z")
@@ -189,6 +202,9 @@ def cases(tier, seed):
     # trees over leaves that the library's (bytecode + kwargs) equality cannot tell apart
     for c in range(4):
         out.append(dict(fam="trees", shape="K", chunk=c, nchunk=4))
+    # trees over two different time-dependent leaves whose keyword arguments are identical (what a value cache may key on)
+    for c in range(4):
+        out.append(dict(fam="trees", shape="W", chunk=c, nchunk=4))
     nsolver = 14 if tier == "quick" else 30
     for i in range(nsolver):
         out.append(dict(fam="solver", index=i))
@@ -196,9 +212,23 @@ def cases(tier, seed):
 
 
 KLEAVES = ["K2a", "K2b", "P2", "F"]
+WLEAVES = ["T3", "T3b", "P3", "F"]  # two different time-dependent functions with identical keyword arguments
+
+
+def twin_trees():
+    ones = [(op, a, b) for op in OPS for a in WLEAVES for b in WLEAVES if not (a in NUM and b in NUM)]
+    out = list(ones)
+    for t1 in ones:
+        for op in OPS:
+            for l in WLEAVES:
+                out.append((op, t1, l))
+                out.append((op, l, t1))
+    return [t for t in out if {"T3", "T3b"} <= set(leaves_of(t))]
 
 
 def trees_for(case):
+    if case["shape"] == "W":
+        return [t for i, t in enumerate(twin_trees()) if i % case["nchunk"] == case["chunk"]]
     if case["shape"] == "K":
         ones = [(op, a, b) for op in OPS for a in KLEAVES for b in KLEAVES if not (a in NUM and b in NUM)]
         out = list(ones)
